@@ -57,6 +57,12 @@ def keys(ms):
     return tuple(key(m) for m in ms)
 
 
+def twin(m):
+    import copy
+
+    return m.type.create(copy.deepcopy(m.attrs))
+
+
 def explore(ctx, S, rs, spec, universe, tag, rnd=None, maxsteps=None):
     from prosemirror.model import Mark
 
@@ -78,8 +84,11 @@ def explore(ctx, S, rs, spec, universe, tag, rnd=None, maxsteps=None):
         if not rs.canonical(ck):
             bad("reached-noncanonical", "reachable mark set %r is not canonical" % (ck,))
             continue
-        for m in universe:
+        for m0 in universe:
             steps += 1
+            # an equal mark that is a different object than the one possibly in the set (marks are
+            # values: set operations go by type and attributes, not by object identity)
+            m = twin(m0) if steps % 2 else m0
             mk = key(m)
             snapshot = list(cur)
             # ---- add
@@ -159,13 +168,13 @@ def explore(ctx, S, rs, spec, universe, tag, rnd=None, maxsteps=None):
             if cur and keys(Mark.set_from(cur[0])) != (ck[0],):
                 bad("set_from", "set_from(single mark) wrong")
             for ok, other in seen.items():
-                if Mark.same_set(cur, other) != (ok == ck):
-                    bad("same_set", "same_set(%r, %r) = %r" % (ck, ok, Mark.same_set(cur, other)))
+                if Mark.same_set(cur, other) != (ok == ck) or Mark.same_set([twin(x) for x in other], cur) != (ok == ck):
+                    bad("same_set", "same_set(%r, %r) = %r (or with equal copies of the marks: %r)" % (ck, ok, Mark.same_set(cur, other), Mark.same_set([twin(x) for x in other], cur)))
                     break
             for x in universe:
                 for y in universe:
-                    if x.eq(y) != (key(x) == key(y)):
-                        bad("eq", "Mark.eq(%r,%r) = %r" % (key(x), key(y), x.eq(y)))
+                    if x.eq(y) != (key(x) == key(y)) or twin(x).eq(y) != (key(x) == key(y)):
+                        bad("eq", "Mark.eq(%r,%r) = %r (equal copy: %r)" % (key(x), key(y), x.eq(y), twin(x).eq(y)))
         except Exception as e:
             bad("set-ops-raised", "set_from/same_set/eq raised %s: %s" % (type(e).__name__, e), exc=type(e).__name__)
         # ---- permission filtering per parent type
